@@ -10,7 +10,7 @@ VERIFIES = (KH_VERIFY, ROOT_VERIFY, DELEG_VERIFY)
 
 
 def run(chk, prog):
-    chk.rules_live = ["R1", "R2", "R3", "R4", "R5", "R6", "R7", "R8", "R9", "R10", "R11", "R12", "R13", "R14", "R15", "R16", "R17"]
+    chk.rules_live = ["R1", "R2", "R3", "R4", "R5", "R6", "R7", "R8", "R9", "R10", "R11", "R12", "R13", "R14", "R15", "R16", "R17", "R18"]
     chk.explanation = (
         "Structural writer/reader rules over the editor: SignedRole is constructed only where its "
         "digest and length are computed from the very buffer that is written; snapshot/timestamp "
@@ -40,6 +40,7 @@ def run(chk, prog):
     r15_existing_destination_verified(chk, prog)
     r16_every_authorised_key_signs(chk, prog)
     r17_add_key_attaches_every_key(chk, prog)
+    r18_publication_walk_follows_links(chk, prog)
 
 
 def r1_signed_role(chk, prog):
@@ -733,3 +734,26 @@ def r17_add_key_attaches_every_key(chk, prog):
                     "a given key id is collected for the role only under a condition (%s): a key the delegating role "
                     "already knows would silently not be attached" % sorted(set(repr(o) for _, os_ in fc for o in os_))[:3],
                     ctx.site(fc[0][0]) if fc else None)
+
+
+def r18_publication_walk_follows_links(chk, prog):
+    """'every published target file downloads': a target is accepted and signed from a path that may be a
+    symlink (add_target_path / Target::from_path read through links), so the walk that copies or links the
+    input directory into the repository must see the same files: WalkDir .follow_links(true)"""
+    fam = [b for b in prog.bodies.values() if b.path.startswith("tough::editor::signed::TargetsWalker::walk_targets")]
+    if not fam:
+        chk.anchor_missing("R18", "tough::editor::signed::TargetsWalker::walk_targets")
+        return
+    walks = follows = 0
+    site = None
+    for b in fam:
+        for bb, t in b.calls():
+            if t.is_call_to("walkdir::WalkDir::new"):
+                walks += 1
+                site = site_of(t.sp)
+                chk.analysed_body(b)
+            if t.is_call_to("walkdir::WalkDir::follow_links") and len(t.args) > 1 and t.args[1].is_const and t.args[1].const_int == 1:
+                follows += 1
+    chk.require(walks >= 1 and follows >= walks, "R18", "tough::editor::signed::TargetsWalker::walk_targets", "walk-follows-links",
+                "the publication walk over the input directory does not follow symlinks (WalkDir::follow_links(true)): a "
+                "target that was added and signed through a link is silently not copied/linked, and its download fails", site)
